@@ -168,6 +168,22 @@ func VX_C08_project() {
 		vxCheckFrame(h, []string{"a", "c", "e"}, []vxCol{cols[0], cols[4], cols[4]}, ix, "Drop then Copy onto a moved column")
 		h2 := f.Drop("a").Copy("e", "b")
 		vxCheckFrame(h2, []string{"b", "c", "d", "e"}, []vxCol{cols[1], cols[2], cols[3], cols[1]}, ix, "Drop first then Copy onto the last column")
+	case "drop_dup": // names repeated or unknown: the number of names says nothing about what is left
+		g := f.Drop("b", "b")
+		vxCheckFrame(g, []string{"a", "c", "d", "e"}, []vxCol{cols[0], cols[2], cols[3], cols[4]}, ix, "Drop with a repeated name")
+		h := f.Select("a", "b").Drop("a", "a")
+		vxCheckFrame(h, []string{"b"}, []vxCol{cols[1]}, ix, "Drop with as many names as columns, one repeated")
+		h2 := f.Select("a", "b").Drop("zz", "yy", "a")
+		vxCheckFrame(h2, []string{"b"}, []vxCol{cols[1]}, ix, "Drop with unknown names")
+		h3 := f.Select("a", "b").Drop("b", "a")
+		vx.Check(h3.Err == nil && len(h3.ColumnNames()) == 0, "Drop of every column")
+	case "copy_siblings": // frames derived from one parent by adding different columns are independent
+		p := f.Copy("p", "a")
+		s1 := p.Copy("x", "a")
+		s2 := p.Copy("y", "b")
+		vxCheckFrame(s1, append(append([]string{}, names...), "p", "x"), append(append([]vxCol{}, cols...), cols[0], cols[0]), ix, "first sibling after the second was derived")
+		vxCheckFrame(s2, append(append([]string{}, names...), "p", "y"), append(append([]vxCol{}, cols...), cols[0], cols[1]), ix, "second sibling")
+		vxCheckFrame(p, append(append([]string{}, names...), "p"), append(append([]vxCol{}, cols...), cols[0]), ix, "parent of the siblings")
 	case "drop_none":
 		g := f.Drop()
 		vxCheckFrame(g, names, cols, ix, "Drop()")
